@@ -165,13 +165,13 @@ def describe_event(ex, M, ix, ev):
     return None
 
 
-def finish_all(chk):
+def finish_all(chk, prop='C03'):
     """finish_all_rules_and_features: leftover maps with <= 2 features x <= 2 rules, every hash-map iteration order."""
     prog = chk.prog
     ix = events.CukeIdx(prog)
     FR = prog.tables.struct_fields('runner::basic::FinishedRulesAndFeatures')
     body = method(prog, 'FinishedRulesAndFeatures', 'finish_all_rules_and_features')
-    o = chk.add(Obligation('C03.finish_all.every-open-bracket-closed-once-rules-before-their-feature',
+    o = chk.add(Obligation(prop + '.finish_all.every-open-bracket-closed-once-rules-before-their-feature',
                            'leftover brackets: 0..2 features, 0..2 rules distributed over them; all iteration orders of both hash maps'))
     o.verdict = 'holds'
     np = 0
@@ -220,11 +220,11 @@ def finish_all(chk):
                 o.model = {'features': nf, 'rules_of_feature': rules, 'emitted': [list(e) if e else None for e in evs]}
         ex.explore(run, on_end)
     if o.verdict == 'violated':
-        confirm_finish_all(chk, o)
+        confirm_finish_all(chk, o, prop)
     return o
 
 
-def confirm_finish_all(chk, o):
+def confirm_finish_all(chk, o, prop='C03'):
     """In-crate replay of the real finish_all_rules_and_features on the counterexample's leftover brackets."""
     import os
     from checks import incrate
@@ -263,7 +263,7 @@ def confirm_finish_all(chk, o):
     chk.replays += 1
     d = os.path.join(common.EVID, 'replay')
     os.makedirs(d, exist_ok=True)
-    path = os.path.join(d, 'C03-finish-all.txt')
+    path = os.path.join(d, '%s-finish-all.txt' % prop)
     if not res:
         o.verdict = 'inconclusive'
         o.detail += ' | in-crate replay did not run: %s' % out[-400:]
